@@ -129,6 +129,11 @@ def gen_history_program(rng: random.Random, idx: int) -> dict[str, Any]:
     if "defines" in feats:
         defines = [("DEF0", "0x12"), ("DEF1", rng.choice(["0", "1"])), ("DEF2", "2")][: rng.randrange(1, 4)]
     prog = progen.gen_program(rng, mapping, feats, defines, size=rng.choice([4, 8, 12]) if rng.random() < 0.93 else rng.choice([200, 500, 900]), prefix=prefix)
+    for n in prog.root:
+        # the other spelling of a ROM mapping's default attribute (histories only: what it means is not
+        # relied upon, only that it must not leak into the next assembly)
+        if n["k"] == "map" and "writable" not in n["t"] and rng.random() < 0.35:
+            n["t"] += rng.choice([" writable=0", " writable=0", " writable=1"])
     pool = pool_prelude(rng, prefix) if rng.random() < 0.7 else []
     if pool:
         # after the first *= (and after any .map lines)
@@ -292,6 +297,9 @@ def gen_case(cseed: int, tier: str) -> dict[str, Any]:
             # force a custom mapping program
             w2 = random.Random(w.getrandbits(32))
             prog = progen.gen_program(w2, "low", {"data", "map", "blocks"}, [], size=6, prefix=hp["prefix"])
+            for n in prog.root:
+                if n["k"] == "map" and "writable" not in n["t"] and w2.random() < 0.35:
+                    n["t"] += w2.choice([" writable=0", " writable=0", " writable=1"])
             hp = dict(hp, prog=prog.to_record(), pool=False, shared=None)
         insert = None
         faults: list[dict[str, Any]] = []
@@ -425,10 +433,20 @@ def gen_case(cseed: int, tier: str) -> dict[str, Any]:
     if probe["defines"]:
         flipped = [[n, {"0": "1", "1": "0", "0x12": "0x34", "7": "9", "3": "1"}.get(v, "2")] for n, v in probe["defines"]]
         same_text_variants.append(("defines", flipped))
+    if "map" in pprog.features and b".map " in files["probe.s"]:
+        # the probe's own text with the optional attributes of its .map lines spelled out (or changed): same
+        # banks, same mask, same addresses translated - under what must be a different mapping object
+        import re as _re
+
+        alt = _re.sub(rb"(\.map [^\n]*?)(\n)", lambda m: m.group(1) + (b"" if b"writable" in m.group(1) else h.choice([b" writable=0", b" writable=0", b" writable=1"])) + m.group(2), files["probe.s"])
+        if alt != files["probe.s"]:
+            files["probe_ms.s"] = alt
+            roles["probe_ms.s"] = "source"
+            same_text_variants.append(("mapspell", None))
     if same_text_variants and h.random() < 0.8:
         for kind, val in h.sample(same_text_variants, h.randrange(1, len(same_text_variants) + 1)):
             e = h.choice(["string", "with_emitter", "patch", "assemble", "cli"])
-            st = spec_for(e, "probe.s", f"st{len(ops)}_", val if kind == "rom" else probe["rom"], val if kind == "defines" else probe["defines"], h)
+            st = spec_for(e, "probe.s" if kind != "mapspell" else "probe_ms.s", f"st{len(ops)}_", val if kind == "rom" else probe["rom"], val if kind == "defines" else probe["defines"], h)
             if st.get("out"):
                 roles[st["out"]] = "out_ips" if st["out"].endswith(".ips") else "out_sfc"
             pos = h.choice(root_positions(ops))
@@ -555,6 +573,8 @@ def run_case(case: dict[str, Any], stats: Stats) -> list[Violation]:
             continue
         if op.get("kind") == "same_failure" and not o["ok"]:
             stats.bump("probe:history_failed_the_way_the_probe_fails")
+        if op.get("kind") == "same_text_mapspell":
+            stats.bump("probe:history_assembled_probe_text_with_map_attributes_spelled_out")
         if op.get("kind") == "same_text_rom":
             stats.bump("probe:history_assembled_probe_text_under_other_layout")
         if op.get("kind") == "same_text_defines":
